@@ -110,7 +110,10 @@ class Iterate:
             return self.lag_hess(m) + rho * np.dot(jac.T, jac)
 
     def dist(self, other: "Iterate") -> float:
-        return norm_mult(self.x - other.x, self.y - other.y)
+        # accumulate in double precision: squared single precision entries overflow early
+        xdiff = np.asarray(self.x - other.x, dtype=float)
+        ydiff = np.asarray(self.y - other.y, dtype=float)
+        return norm_mult(xdiff, ydiff)
 
     def locally_infeasible(self, feas_tol: float, local_infeas_tol: float) -> bool:
         """
